@@ -503,6 +503,22 @@ theorem src_tie_opl_parse_id (s t : List UInt8) (i fuel : Nat) (hi : i ≤ s.len
     Src.OplParserFunctions.opl_parse_id_defined fuel (s ++ 0 :: t) (i : Int) = true :=
   SrcTie.OplSmall.src_tie_opl_parse_id s t i fuel hi hf
 
+/-- the test that ends the loop of `opl_parse_tags` (the function drives a `TagListBuilder`, outside the translated subset;
+    its condition is extracted) = the test of the model's `pTags` -/
+theorem src_tie_opl_parse_tags_cond_end (s t : List UInt8) (i : Nat) (hi : i ≤ s.length) :
+    Src.OplParserFunctions.opl_parse_tags_cond_end (s ++ 0 :: t) (i : Int) =
+      (OplFmt.isSpTab (peek (s.drop i)) || peek (s.drop i) == 0) ∧
+    Src.OplParserFunctions.opl_parse_tags_cond_end_defined (s ++ 0 :: t) (i : Int) = true :=
+  SrcTie.OplSmall.src_tie_opl_parse_tags_cond_end s t i hi
+
+/-- the "no timestamp" test of `opl_parse_timestamp` (the function has a `try` block, outside the subset; the
+    `Timestamp(const char*)` constructor behind it is tied in Props/C13.lean) = the test of the model's `oplParseTimestamp` -/
+theorem src_tie_opl_parse_timestamp_cond_empty (s t : List UInt8) (i : Nat) (hi : i ≤ s.length) :
+    Src.OplParserFunctions.opl_parse_timestamp_cond_empty (s ++ 0 :: t) (i : Int) =
+      (peek (s.drop i) == 0 || peek (s.drop i) == 32 || peek (s.drop i) == 9) ∧
+    Src.OplParserFunctions.opl_parse_timestamp_cond_empty_defined (s ++ 0 :: t) (i : Int) = true :=
+  SrcTie.OplSmall.src_tie_opl_parse_timestamp_cond_empty s t i hi
+
 -- the translated functions run: "V" is visible; " \t x" skips three blanks; '=' expected but ',' found
 example : Src.OplParserFunctions.opl_parse_visible ([0x56] ++ 0 :: []) 0 = .normal 1 true := by decide +kernel
 example : Src.OplParserFunctions.opl_parse_space 10 ([0x20, 0x09, 0x20, 0x78] ++ 0 :: []) 0 = .normal 3 () := by decide +kernel
